@@ -1,7 +1,12 @@
 import WfModel.GenJournal
+import WfModel.GenJournalTable
 import WfProofs.JournalWait
 import WfProofs.JournalWitness
 import WfProofs.JournalReplaying
+import WfProofs.JournalHistory
+import WfProofs.JournalCrashes
+import WfProofs.JournalCrashesSim
+import WfProofs.JournalPurgeOnce
 /-!
 # C27 — DBOS recovery replays a run to the same execution   (PARTIAL: DBOS itself is trusted)
 
@@ -301,3 +306,239 @@ theorem C27_continuation_partial {σ κ ν ο : Type} [DecidableEq κ] (L : Loop
     (w : World σ κ ν ο) (hr : Reach L w) (hnt : noTimeout w.hist = true) (hsafe : PurgeSafe L w) :
     ∃ wr, L.recover w.jr w.memo w.mbox = .ok wr ∧ Sim (settled L w) wr :=
   recover_sim L hk hr hnt hsafe
+
+/-! ## a run that is stopped and recovered ANY number of times
+
+`Reach` is one never-stopped process; `ReachC` adds the transition "stop here, recover from the durable state,
+go on from the recovered world" (any number of times, at any points, also in the middle of a replayed prefix's
+aftermath).  `KeysDistinctCfg` is the key-allocation hypothesis stated on the loop's configurations alone; it
+implies `KeysDistinct`. -/
+
+section
+variable {σ κ ν ο : Type} [DecidableEq κ]
+
+/-- **write order, any number of stops** (no guard, timeouts included): in every world of a run that was
+stopped and recovered any number of times, the durable journal is exactly the completions acted upon (as the
+current process knows them: replayed + fresh) plus at most one recorded-unacted completion. -/
+theorem C27_write_order_any_stops (L : Loop σ κ ν ο) (w : World σ κ ν ο) (hr : ReachC L w) :
+    w.jr = actedKeys w.hist ++ (match w.pend with | none => [] | some t => [t.key]) :=
+  jr_of_reachC L hr
+
+/-- **replayed part, any number of stops.**  If no wait-timeout was acted upon since the most recent recovery
+(timeouts in earlier lives do not matter), then at every stop point of the k-th life the next recovery replays
+the journal successfully, observes the recorded completion order and reaches the configuration and the outputs
+of the process that was stopped. -/
+theorem C27_replay_after_any_stops (L : Loop σ κ ν ο) (hk : KeysDistinctCfg L) (w : World σ κ ν ο)
+    (hr : ReachC L w) (hnt : noTimeout w.hist = true) :
+    L.replay w.memo L.cfg0 w.jr =
+      .ok ((settled L w).c, (settled L w).outs, actedTasks (settled L w).hist) ∧
+    (actedTasks (settled L w).hist).map (·.key) = w.jr :=
+  replay_of_reachC L hk w hr hnt
+
+/-- … hence recovery never fails there (neither "key not in flight" nor "not memoised"), and the recovered
+process starts from the stopped one's configuration, outputs and journal. -/
+theorem C27_recovery_succeeds_after_any_stops (L : Loop σ κ ν ο) (hk : KeysDistinctCfg L) (w : World σ κ ν ο)
+    (hr : ReachC L w) (hnt : noTimeout w.hist = true) :
+    ∃ wr, L.recover w.jr w.memo w.mbox = .ok wr ∧ wr.c = (settled L w).c ∧
+      wr.outs = (settled L w).outs ∧ wr.jr = w.jr :=
+  recover_ok_of_reachC L hk w hr hnt
+
+/-- the hypothesis on configurations implies the one the single-stop theorems use -/
+theorem C27_keys_cfg_implies_keys (L : Loop σ κ ν ο) (h : KeysDistinctCfg L) : KeysDistinct L :=
+  keysDistinct_of_cfg L h
+
+/-- non-vacuity: the pull-task loop satisfies `KeysDistinctCfg`; a world recovered TWICE (stop between the
+journal INSERT and the return; recover; a message arrives; stop; recover) with a non-empty journal -/
+example : KeysDistinctCfg Witness.Lp ∧
+    (∃ w, ReachC Witness.Lp w ∧ w.jr = [0] ∧ noTimeout w.hist = true ∧ w.hist ≠ []) :=
+  ⟨Witness.Lp_keysCfg, Witness.wpr2_reachC⟩
+
+/-- **a recovered process is self-consistent, whatever it was recovered from** (no hypothesis on the stopped
+process: timeouts, several lives, anything): whenever recovery succeeds, the world it produces replays — with
+the memo the orphan purge left — to exactly its own configuration, outputs and observed tasks; its journal is
+exactly what it observed; a stop before its first action recovers to the same configuration again
+(recovery is idempotent). -/
+theorem C27_recovered_world_replays_to_itself (L : Loop σ κ ν ο) (w wr : World σ κ ν ο)
+    (h : L.recover w.jr w.memo w.mbox = .ok wr) :
+    L.replay wr.memo L.cfg0 wr.jr = .ok (wr.c, wr.outs, actedTasks wr.hist) ∧
+    wr.jr = actedKeys wr.hist ∧ noTimeout wr.hist = true ∧
+    (∃ wr2, L.recover wr.jr wr.memo wr.mbox = .ok wr2 ∧ wr2.c = wr.c ∧ wr2.outs = wr.outs ∧ wr2.jr = wr.jr) := by
+  obtain ⟨hi, hnt⟩ := invC_of_recover L h
+  have hp : wr.pend = none := by
+    simp only [Loop.recover] at h
+    split at h
+    · cases h
+    · injection h with h; subst h; rfl
+  have hjr : wr.jr = actedKeys wr.hist := by have := hi.jr; rw [hp] at this; simpa using this
+  refine ⟨by rw [hjr]; exact hi.rep, hjr, hnt, ?_⟩
+  refine ⟨{ c := wr.c, jr := wr.jr, memo := purgeMemo wr.memo wr.jr wr.c.base, mbox := wr.mbox, pend := none,
+            hist := (actedTasks wr.hist).map (fun t => (wr.memo t.fid).map (fun v => (t, v))), outs := wr.outs },
+          ?_, rfl, rfl, rfl⟩
+  simp only [Loop.recover, hjr, hi.rep]
+
+/-- non-vacuity: the timer witness (a timeout WAS acted upon before the stop) recovers successfully -/
+example : ∃ wr, Witness.Lt.recover Witness.wt.jr Witness.wt.memo Witness.wt.mbox = .ok wr :=
+  ⟨_, rfl⟩
+
+end
+
+/-! ## the table over whole histories: any number of lives, any calls -/
+
+/-- **table invariant over all histories.**  Start from any table in which the run's rows are numbered
+0,1,2,… (`WF`; the empty table is).  Run ANY number of process lives of the run (each: fresh adapter, then an
+arbitrary sequence of `wait_for_next_task` calls — any in-flight sets, finishing orders, timeouts, scheduler
+choices, the fallback included).  Then: the numbering invariant still holds; `load` returns the old journal
+followed by exactly the completions the fresh branch handed to the control loop, in that order (nothing lost,
+nothing duplicated, nothing reordered; in particular the orphan purge's `truncate_from` never removed a
+row); and no other run's rows were touched. -/
+theorem C27_journal_table_all_lives {κ : Type} [DecidableEq κ] (run : String) (db : Db κ)
+    (lives : List (List (WaitIn κ))) (hw : WF db run) :
+    WF (runLives run db lives).1 run ∧
+    (runLives run db lives).1.load run = db.load run ++ freshKeys (runLives run db lives).2 ∧
+    (∀ run', run' ≠ run → runRows (runLives run db lives).1 run' = runRows db run') :=
+  runLives_good run lives db hw
+
+example : WF ({} : Db Nat) "r" ∧
+    (runLives "r" ({} : Db Nat)
+      [[{ inflight := [5, 7], done := [7], choice := some 7 }],
+       [{ inflight := [5, 7], done := [5, 7] }, { inflight := [5], done := [5], choice := some 5, fid := 3 }]]).1.load "r"
+      = [7, 5] := ⟨rfl, by decide⟩
+
+/-- **every call of every life keeps the mirror**: after each call the in-memory `_entries` is exactly what
+`load` returns, the row numbering holds, and a fresh completion got `seq_num` = the number of entries before
+it — so the per-call hypotheses `WF`/`Sync` of `C27_record_roundtrip` and `C27_wait_fresh_records` hold in
+every state a process can be in. -/
+theorem C27_mirror_every_call {κ : Type} [DecidableEq κ] (run : String) (db : Db κ) (calls : List (WaitIn κ))
+    (hw : WF db run) :
+    WF (runCalls run {} db calls).2.1 run ∧
+    (calls ≠ [] → Sync (runCalls run {} db calls).1.tj (runCalls run {} db calls).2.1 run) ∧
+    (runCalls run {} db calls).2.1.load run = db.load run ++ freshKeys (runCalls run {} db calls).2.2 := by
+  obtain ⟨g1, _, g3, _, _⟩ := runCalls_good run calls {} db [] hw (Or.inl rfl)
+  exact ⟨g1, fun hne => runCalls_loaded run calls {} db hw (Or.inl rfl) (Or.inr hne), g3⟩
+
+example : (runCalls "r" {} (({} : Db Nat).insert "r" 0 7) [{ inflight := [5, 7], done := [5, 7] }]).1.tj.entries
+    = some [7] := by decide
+
+/-- **observed order = recorded order, for every call history of a life.**  In a life without the
+"non-deterministic execution" fallback, after any sequence of calls, the completions handed to the control
+loop so far are exactly the first `_replay_index` entries of the journal as it now stands (= the journal found
+at start, then this life's own fresh completions): during the replay the loop has seen a prefix of the
+recorded order, in order; once `is_replaying()` is false it has seen all of it and then exactly what it
+recorded itself. -/
+theorem C27_observed_order_is_journal_prefix {κ : Type} [DecidableEq κ] (run : String) (db : Db κ)
+    (calls : List (WaitIn κ)) (hw : WF db run)
+    (hnf : ∀ r, r ∈ (runCalls run {} db calls).2.2 → r.fallback = false) :
+    returnedKeys (runCalls run {} db calls).2.2 =
+      (db.load run ++ freshKeys (runCalls run {} db calls).2.2).take (runCalls run {} db calls).1.tj.idx ∧
+    (runCalls run {} db calls).1.tj.idx ≤ (db.load run ++ freshKeys (runCalls run {} db calls).2.2).length ∧
+    (calls ≠ [] → (runCalls run {} db calls).1.isReplaying = false →
+      returnedKeys (runCalls run {} db calls).2.2 = db.load run ++ freshKeys (runCalls run {} db calls).2.2) := by
+  obtain ⟨_, _, g3, _, g5⟩ := runCalls_good run calls {} db [] hw (Or.inl rfl)
+  have ho := g5 hnf ⟨rfl, Nat.le_refl _⟩
+  cases calls with
+  | nil => exact ⟨by simp [runCalls, returnedKeys], by simp [runCalls], fun h => absurd rfl h⟩
+  | cons i is =>
+    have hl := runCalls_loaded run (i :: is) {} db hw (Or.inl rfl) (Or.inr (by simp))
+    unfold Sync at hl
+    obtain ⟨h1, h2⟩ := ho
+    rw [hl, g3] at h1 h2
+    simp only [Option.getD_some, List.nil_append] at h1 h2
+    refine ⟨h1, h2, ?_⟩
+    intro _ hrep
+    simp only [Adapter.isReplaying, TJ.isReplaying, hl, g3, decide_eq_false_iff_not, Nat.not_lt] at hrep
+    rw [h1, List.take_of_length_le hrep]
+
+example : returnedKeys (runCalls "r" {} (({} : Db Nat).insert "r" 0 7)
+      [{ inflight := [5, 7], done := [5, 7] }, { inflight := [5], done := [5], choice := some 5 }]).2.2 = [7, 5] := by
+  decide
+
+/-- the no-fallback guard is needed (code as it is): when the recorded key is not among the tasks the call
+falls back to the fresh branch, whose `record` appends at the END of the journal and moves the cursor past an
+entry that was never replayed — the loop has seen `[5]`, the first `_replay_index` entries are `[7]`. -/
+theorem C27_observed_order_guard_needed :
+    (runCalls "r" {} (({} : Db Nat).insert "r" 0 7) [{ inflight := [5], done := [5], choice := some 5 }]).2.2.map (·.fallback)
+      = [true] ∧
+    returnedKeys (runCalls "r" {} (({} : Db Nat).insert "r" 0 7) [{ inflight := [5], done := [5], choice := some 5 }]).2.2
+      = [5] ∧
+    ((runCalls "r" {} (({} : Db Nat).insert "r" 0 7) [{ inflight := [5], done := [5], choice := some 5 }]).2.1.load "r").take
+      (runCalls "r" {} (({} : Db Nat).insert "r" 0 7) [{ inflight := [5], done := [5], choice := some 5 }]).1.tj.idx = [7] ∧
+    (runCalls "r" {} (({} : Db Nat).insert "r" 0 7) [{ inflight := [5], done := [5], choice := some 5 }]).2.1.load "r"
+      = [7, 5] := by
+  decide
+
+set_option maxRecDepth 8000 in
+/-- The shapes the history theorems are cut along, re-extracted on every run: the DDL of `workflow_journal` in both
+dialects (auto-incremented `id` primary key = `Db.insert`'s `nextId`; NO uniqueness constraint on `(run_id, seq_num)`,
+so the row numbering `WF` is owed to the writers alone; one migration file touches the table); the initial state of a
+process life (`{}` adapter of `runCalls` / `runLives`: `_entries = None`, `_replay_index = 0`, `_journal = None`,
+`_orphan_purge_done = False`, one cached `TaskJournal(self._run_id, crud)` per adapter); `TaskJournal.load` (idempotent,
+reads the table once); every writing method of `SqliteJournalCrud` is `execute ; commit` on its own connection (the row
+is durable before `record` returns); `delete`'s SQL; table-name plumbing and identifier quoting. -/
+theorem C27_table_source_shape :
+    GenJournalTable.sqliteColumns =
+      ["id INTEGER PRIMARY KEY AUTOINCREMENT", "run_id TEXT NOT NULL", "seq_num INTEGER NOT NULL", "task_key TEXT NOT NULL"] ∧
+    GenJournalTable.pgColumns =
+      ["id SERIAL PRIMARY KEY", "run_id VARCHAR(255) NOT NULL", "seq_num INTEGER NOT NULL", "task_key VARCHAR(512) NOT NULL"] ∧
+    GenJournalTable.sqliteUnique = [] ∧ GenJournalTable.pgUnique = [] ∧
+    GenJournalTable.sqliteOtherStatements = ["CREATE INDEX IF NOT EXISTS idx_workflow_journal_run_id ON workflow_journal (run_id)"] ∧
+    GenJournalTable.pgOtherStatements = GenJournalTable.sqliteOtherStatements ∧
+    GenJournalTable.sqliteFiles = ["0001_init.sql"] ∧ GenJournalTable.pgFiles = ["0001_init.sql"] ∧
+    GenJournalTable.tjInit = ["_entries=None", "_replay_index=0"] ∧
+    GenJournalTable.adapterInit = ["_journal=None", "_orphan_purge_done=False"] ∧
+    GenJournalTable.getOrCreateJournalBody =
+      "if self._journal is None: if self._resolved_pool is not None: crud = PostgresJournalCrud(pool=self._resolved_pool, table_name=self._journal_table_name, schema=self._schema) elif self._db_path is not None: crud = SqliteJournalCrud(db_path=self._db_path, table_name=self._journal_table_name) else: raise RuntimeError('No pool or db_path configured for journal.') self._journal = TaskJournal(self._run_id, crud) ; return self._journal" ∧
+    GenJournal.loadBody =
+      "if self._entries is not None: return ; if self._crud is None: self._entries = [] return ; self._entries = await self._crud.load(self._run_id)" ∧
+    GenJournalTable.sqliteWriteShapes =
+      ["insert=self._connect():execute,commit", "delete=self._connect():execute,commit",
+       "truncate_from=self._connect():execute,commit", "purge_operations_from=self._connect():execute,commit"] ∧
+    GenJournalTable.sqliteConnectBody = "conn = sqlite3.connect(self._db_path) ; try: yield conn finally: conn.close()" ∧
+    GenJournalTable.sqliteCrudInit =
+      ["_db_path=db_path", "_table_ref=_quote_identifier(table_name)", "_ops_table_ref=_quote_identifier('operation_outputs')"] ∧
+    GenJournalTable.pgCrudInit =
+      ["_pool=pool", "_table_ref=_qualified_table_ref(table_name, schema)", "_ops_table_ref=_qualified_table_ref('operation_outputs', schema)"] ∧
+    GenJournal.sqlite_delete = "DELETE FROM T WHERE run_id = ?" ∧ GenJournal.pg_delete = "DELETE FROM T WHERE run_id = $1" ∧
+    GenJournalTable.journalTableName = "'workflow_journal'" ∧ GenJournalTable.defaultJournalTableName = "JOURNAL_TABLE_NAME" ∧
+    GenJournalTable.validIdentifier = "re.compile('^[A-Za-z_][A-Za-z0-9_]*$')" ∧
+    GenJournalTable.quoteIdentifierBody =
+      "if not _VALID_IDENTIFIER.match(name): msg = f'Invalid SQL identifier: {name!r}' raise ValueError(msg) ; return f'\"{name}\"'" ∧
+    GenJournalTable.qualifiedTableRefBody =
+      "ref = _quote_identifier(table_name) ; if schema: ref = f'{_quote_identifier(schema)}.{ref}' ; return ref" := by
+  and_intros <;> rfl
+
+/-! ## continuation after any number of stops; the orphan purge over a whole life -/
+
+/-- **C27, continuation, any number of stops** (loops that never arm a wait timeout).  At every point of a run that
+was stopped and recovered any number of times, if the orphan purge deletes no recorded receive of an in-flight pull
+task, the next recovery yields a process that simulates the stopped one: every further execution of the stopped
+process is matched action by action, ending in related worlds (same configuration, outputs — hence the same
+result); and the recovered worlds are again worlds of such a run, so the statement applies to them in turn. -/
+theorem C27_recovered_continues_any_stops {σ κ ν ο : Type} [DecidableEq κ] (L : Loop σ κ ν ο)
+    (hk : KeysDistinctCfg L) (hna : NeverArmed L) (w w2 : World σ κ ν ο) (hr : ReachC L w)
+    (hsafe : PurgeSafe L w) (hcont : Steps L (settled L w) w2) :
+    ∃ wr wr2, L.recover w.jr w.memo w.mbox = .ok wr ∧ Sim (settled L w) wr ∧ Steps L wr wr2 ∧ Sim w2 wr2 ∧
+      ReachC L wr ∧ ReachC L wr2 :=
+  recovered_continues_reachC L hk hna w w2 hr hsafe hcont
+
+/-- non-vacuity: the already once-recovered world `wpr` (non-empty journal, pull task in flight) is purge-safe -/
+example : KeysDistinctCfg Witness.Lp ∧ NeverArmed Witness.Lp ∧ ReachC Witness.Lp Witness.wpr ∧
+    PurgeSafe Witness.Lp Witness.wpr ∧ Witness.wpr.jr = [0] :=
+  ⟨Witness.Lp_keysCfg, Witness.Lp_neverArmed, Witness.wpr_reachC, Witness.wpr_purgeSafe, rfl⟩
+
+/-- **the orphan purge over a whole life**, any calls: `operation_outputs` is purged at most once per process life,
+with the function id of the one call that purged (`function_id > fid` of that call, nothing else ever changes the
+table), and never in a call that hands out a replayed completion — only once `next_expected_key()` is `None`. -/
+theorem C27_orphan_purge_once_per_life {κ : Type} [DecidableEq κ] (run : String) (db : Db κ) (calls : List (WaitIn κ)) :
+    ((runCalls run {} db calls).2.2.filter (·.purged)).length ≤ 1 ∧
+    (runCalls run {} db calls).2.1.ops =
+      (match purgeFid calls (runCalls run {} db calls).2.2 with
+       | none => db.ops
+       | some f => (db.purgeOpsFrom run f).ops) ∧
+    (∀ x, x ∈ (runCalls run {} db calls).2.2 → x.purged = true → ∀ k, x.out ≠ .replayed k) :=
+  let h := runCalls_purge_once run calls {} db
+  ⟨h.1, h.2.1, h.2.2.1⟩
+
+example : (runCalls "r" {} ({ rows := [⟨1, "r", 0, 7⟩], nextId := 2, ops := [⟨"r", 2, "x"⟩, ⟨"r", 9, "y"⟩, ⟨"q", 9, "z"⟩] } : Db Nat)
+      [{ inflight := [5, 7], done := [5, 7], fid := 3 }, { inflight := [5], done := [5], choice := some 5, fid := 4 },
+       { inflight := [6], done := [6], choice := some 6, fid := 1 }]).2.1.ops = [⟨"r", 2, "x"⟩, ⟨"q", 9, "z"⟩] := by
+  decide
